@@ -1469,10 +1469,21 @@ impl ASN1Value {
                     .iter()
                     .any(|enumeral| &enumeral.name == identifier)
                 {
-                    Ok(Some(ASN1Value::EnumeratedValue {
+                    let value = ASN1Value::EnumeratedValue {
                         enumerated: e.identifier.clone(),
                         enumerable: identifier.clone(),
-                    }))
+                    };
+                    // the last supertype is the ENUMERATED itself, which the value already names;
+                    // the aliases passed on the way each wrap the value in their newtype
+                    supertypes.pop();
+                    if supertypes.is_empty() {
+                        Ok(Some(value))
+                    } else {
+                        Ok(Some(ASN1Value::LinkedNestedValue {
+                            supertypes,
+                            value: Box::new(value),
+                        }))
+                    }
                 } else {
                     Ok(None)
                 }
